@@ -70,6 +70,7 @@ def run_scenario(gaps, uids, durs, idle, limit, ties=(), cancel_at=None, fail_at
     settings = configuration.OperatorSettings()
     settings.queueing.idle_timeout = idle
     settings.queueing.worker_limit = limit
+    settings.execution.max_workers = 1       # the thread pool of sync handlers: unrelated to the per-object workers
     total = sum(gaps) + sum(durs) + (n + 1) * idle + 10
     settings.queueing.exit_timeout = total if exit_timeout is None else exit_timeout
     result = {}
